@@ -184,3 +184,68 @@ def havoc(s: int, brackets: List[Tuple[str, bytes]], expected: Optional[Tuple[st
     """
     return run("havoc", _havoc_body, dict(s=s, brackets=brackets, expected=expected, comments=comments,
                                           strlist=strlist, junk=junk, pos=pos, exts=[e0, e1, e2, e3, e4, e5, e6, e7, e8, e9, e10, e11, e12]))
+
+
+# ------------------------------------------------------------------ FiltersSet vs the global list
+from harness import c06 as F6      # noqa: E402
+from harness.c07 import ExtSet     # noqa: E402
+from sievelib.factory import FiltersSet  # noqa: E402
+try:
+    from crosshair.tracers import NoTracing, is_tracing
+except Exception:  # pragma: no cover
+    NoTracing = None
+    is_tracing = lambda: False  # noqa: E731
+
+FCONDS = F6.CONDS + [
+    ("Subject", ":regex", "a.*"), ("Subject", ":notregex", "a.*"), ("envelope", ":regex", ["From"], ["a"]),
+    ("address", ":regex", "from", "a"), ("body", ":raw", ":regex", "a"),
+    ("currentdate", ":zone", "+0100", ":value", "ge", "date", "2020-01-01"),
+]
+NFC = len(FCONDS)
+NFA = len(F6.ACTS)
+
+
+def _factory_outcome(ci, ai, extset):
+    SC.RequireCommand.loaded_extensions = extset
+    fs = FiltersSet("t")
+    try:
+        fs.addfilter("f", [FCONDS[ci]], [F6.ACTS[ai]])
+        fs.disablefilter("f")
+        fs.updatefilter("f", "g", [FCONDS[ci], FCONDS[0]], [F6.ACTS[ai]], "allof")
+        return ("ok", str(fs), tuple(fs.requires))
+    except Exception as e:
+        return ("raises", type(e).__name__, str(e))
+
+
+def _fhavoc_body(info, c, a, exts):
+    ci = P.decode(c, NFC)
+    ai = P.decode(a, NFA)
+    want = notrace(_factory_outcome, ci, ai, [])
+    es = ExtSet().setup(dict(zip(P.ALL_EXT, exts)))
+    es.resume = True
+    if is_tracing():
+        with NoTracing():
+            got = _factory_outcome(ci, ai, es)
+    else:
+        got = _factory_outcome(ci, ai, es)
+    ans = dict(es.asked)
+    conc = {"c": ci, "a": ai}
+    for i, e in enumerate(P.ALL_EXT):
+        conc["e%d" % i] = bool(ans.get(e, False))
+    info["concrete"] = conc
+    info["steps"] = 2 + len(es.asked)
+    info["show"] = {"condition": repr(FCONDS[ci]), "action": repr(F6.ACTS[ai]), "asked": list(es.asked)}
+    info["cls"] = "f%d/%d/%s" % (ci, ai, "".join("1" if v else "0" for _, v in es.asked))
+    if got != want:
+        raise Violation("C13/factory-depends-on-loaded-extensions/%s" % (want[0] + "->" + got[0]),
+                        {"condition": repr(FCONDS[ci]), "action": repr(F6.ACTS[ai]), "loaded": ans,
+                         "pristine": repr(want)[:500], "got": repr(got)[:500]})
+
+
+def fhavoc(c: int, a: int, e0: bool, e1: bool, e2: bool, e3: bool, e4: bool, e5: bool, e6: bool, e7: bool, e8: bool,
+           e9: bool, e10: bool, e11: bool, e12: bool) -> bool:
+    """
+    pre: 0 <= c < NFC and 0 <= a < NFA
+    post: _
+    """
+    return run("fhavoc", _fhavoc_body, dict(c=c, a=a, exts=[e0, e1, e2, e3, e4, e5, e6, e7, e8, e9, e10, e11, e12]))
